@@ -451,7 +451,14 @@ class ShardedFileAccessor(neuroglancer_scripts.accessor.Accessor,
                                          shard_volume_spec=shard_volume_spec,
                                          **self.kwargs)
             self.ro_shard_dict[key] = sharded_scale
-        return self.ro_shard_dict[key].fetch_chunk(chunk_coords)
+        try:
+            return self.ro_shard_dict[key].fetch_chunk(chunk_coords)
+        except (AssertionError, IndexError) as exc:
+            # The lower layers signal a missing shard file, minishard or chunk
+            # with assertions
+            raise neuroglancer_scripts.accessor.DataAccessError(
+                f"Cannot find chunk {chunk_coords} of scale {key} in "
+                f"{self.base_dir}") from exc
 
     def get_volume_shard_spec(self, key: str):
         try:
